@@ -190,3 +190,52 @@ def run(ctx, prog, res):
     sh = flow.shape(b, 0, depth=6)
     ok = re.search(r"%s: Option::Some\{0: p2\}" % FIELD, sh) is not None and "holidays: p1.holidays" in sh and "locale: p1.locale" in sh
     r5.check(ok, {"fn": b.id, "returns": sh}, "C16.R5:builder", "Context::approx_bound_interval_size returns %s" % sh, lib.where_of(b))
+
+    # R6 -------------------------------------------------------------------------------------
+    r6 = res.rule("C16.R6", "a bound once given stays in the context: every method that turns a Context into a Context (with_holidays, with_locale, the bound's own setter, any later builder) carries every component it is not given over from the receiver - in particular `approx_bound_interval_size` is the receiver's, or `Some` of an argument; none of them resets it")
+
+    def top_fields(shape):
+        m = re.fullmatch(r"Context\{(.*)\}", shape)
+        if not m:
+            return None
+        out, depth, cur = [], 0, ""
+        for ch in m.group(1):
+            if ch in "({[":
+                depth += 1
+            elif ch in ")}]":
+                depth -= 1
+            if ch == "," and depth == 0:
+                out.append(cur.strip())
+                cur = ""
+            else:
+                cur += ch
+        if cur.strip():
+            out.append(cur.strip())
+        return dict(x.split(": ", 1) for x in out if ": " in x)
+
+    n_b = 0
+    for f in prog.fns.values():
+        if f.crate != lib.OH or f.kind != "AssocFn" or f.from_expansion or (f.impl and f.impl.get("derived")):
+            continue
+        ins_ = f.j.get("inputs", [])
+        if not ins_ or not re.match(r"&?(mut )?" + re.escape(CTX) + r"<", ins_[0]) or not re.match(re.escape(CTX) + r"<", f.j.get("output", "")):
+            continue
+        n_b += 1
+        shp = flow.shape(f, 0, depth=6)
+        alts = [a.strip() for a in (shp[4:-1].split(" | ") if shp.startswith("alt(") else [shp])]
+        for a in alts:
+            if re.fullmatch(r"\*?p1", a):
+                r6.ok({"builder": f.name, "returns": "the receiver"})
+                continue
+            fl = top_fields(a)
+            if fl is None:
+                r6.fail("C16.R6:%s:unmodelled" % f.name, "Context builder %s returns %s: not a struct expression over the receiver's fields - not decided, failing closed" % (f.id, a[:160]), lib.where_of(f))
+                continue
+            for name, val in sorted(fl.items()):
+                kept = re.fullmatch(r"\(?\*?p1\)?\.%s" % re.escape(name), val) is not None
+                given = "p1" not in re.findall(r"p\d+", val) and bool(re.findall(r"p[2-9]", val))
+                if name == FIELD:
+                    given = re.fullmatch(r"Option::Some\{0: p[2-9]\}", val) is not None
+                r6.check(kept or given, {"builder": f.name, "field": name, "value": val[:80], "kept_from_receiver": kept, "given_by_argument": given}, "C16.R6:%s:%s" % (f.name, name),
+                         "Context::%s builds a context whose `%s` is %s: neither the receiver's nor the argument's - a %s configured earlier is silently lost%s" % (f.name, name, val[:80], "bound" if name == FIELD else "component", " (next_change is then exact / unbounded although a bound was given: `none whenever more than B after` fails)" if name == FIELD else ""), lib.where_of(f))
+    r6.floor(9)
